@@ -10,8 +10,9 @@ DATA_NAMES = ["x", "y", "z", "w"]
 DRAW_NAMES = ["u", "v", "g"]
 PARAM_NAMES = ["p", "q", "a"]
 
-SMALL_COEFFS = [F(1), F(2), F(-1), F(1, 2), F(3), F(-2), F(1, 3), F(3, 2), F(-1, 2), F(1, 4)]
-PROBS = [F(1, 2), F(1, 3), F(1, 4), F(2, 3), F(3, 4), F(1, 5), F(1, 10), F(9, 10), F(3, 10), F(9999, 10000), F(1, 8), F(1, 1000)]
+SMALL_COEFFS = [F(1), F(2), F(-1), F(1, 2), F(3), F(-2), F(1, 3), F(3, 2), F(-1, 2), F(1, 4), F(31415927, 10**7), F(1, 10**8)]
+PROBS = [F(1, 2), F(1, 3), F(1, 4), F(2, 3), F(3, 4), F(1, 5), F(1, 10), F(9, 10), F(3, 10), F(9999, 10000), F(1, 8), F(1, 1000),
+         F(1234567, 10**7), F(4, 10**7)]
 
 
 def add(a, b):
@@ -62,6 +63,9 @@ class Gen:
         self.init = []
         self.body = []
         self.noinit = set()
+        self.data_planned = []
+        self.large_discrete = []
+        self.linear_only = set()
 
     def feat(self, f):
         self.features.add(f)
@@ -223,10 +227,10 @@ class Gen:
             if simple and x2 < 0.5:
                 s = r.choice(simple)
                 e = var(s)
-                if s in self.draws and r.random() < 0.3:
+                if s in self.draws and s not in self.linear_only and r.random() < 0.3:
                     e = binop("**", e, num(2))
                     self.feat("draw-squared")
-                if r.random() < 0.3 and allow_self:
+                if r.random() < 0.3 and allow_self and s not in self.linear_only:
                     e = mul(e, var(x))
                     self.feat("data-times-simple")
                 terms.append(scaled(r.choice(SMALL_COEFFS), e))
@@ -275,6 +279,30 @@ class Gen:
         r = self.rng
         name = next(n for n in DRAW_NAMES if n not in self.draws)
         fam = r.choice(["Normal", "Normal", "Uniform", "Uniform", "DistExp", "Laplace", "Gamma", "Beta"])
+        loc_pool = list(self.data_planned) + [f for f in self.fin]
+        if loc_pool and r.random() < 0.3:
+            # location/scale families with a variable-dependent parameter (rewritten by DistTransformer)
+            lv = var(r.choice(loc_pool))
+            fam = r.choice(["Normal", "Uniform", "Laplace"])
+            if fam == "Normal":
+                ps = [r.choice([lv, add(lv, num(1)), mul(num(2), lv)]), num(r.choice([1, 4, F(9, 4), F(1, 4)]))]
+            elif fam == "Uniform":
+                w = r.choice([1, 2, F(1, 2)])
+                ps = [lv, add(lv, num(w))]
+            else:
+                ps = [r.choice([lv, add(lv, num(-1))]), num(r.choice([1, 2, F(1, 2)]))]
+            self.draws[name] = (fam, ps)
+            self.linear_only.add(name)  # its parameters depend on program variables: only used linearly (keeps non-linear dependencies acyclic)
+            self.feat("draw-location-scale-" + fam)
+            return name, ("draw", fam, ps)
+        if r.random() < 0.08:
+            # a discrete draw with more values than the type inference accepts (not finitely typed)
+            hi = r.choice([26, 27, 30])
+            ps = [num(0), num(hi)]
+            self.draws[name] = ("DiscreteUniform", ps)
+            self.feat("draw-DiscreteUniform-large")
+            self.large_discrete.append(name)
+            return name, ("draw", "DiscreteUniform", ps)
         if fam == "Normal":
             ps = [num(r.choice([0, 1, -1, F(1, 2), 2])), num(r.choice([1, 2, F(1, 2), F(1, 4), 4]))]
         elif fam == "Uniform":
@@ -431,6 +459,7 @@ class Gen:
                   "linear": 0, "nested": r.choice([0, 1]), "multiassign": r.choice([0, 1]), "symbolic": r.choice([0, 1])}[prof]
         n_data = r.choice([1, 2, 2, 3]) if prof != "linear" else r.choice([2, 3, 3, 4])
 
+        self.data_planned = DATA_NAMES[:n_data]
         fin_updates = []
         for _ in range(n_fin):
             name, upd, initv = self.new_fin()
@@ -459,12 +488,23 @@ class Gen:
                     cur = []
                 cur.append(x)
             levels.append(cur)
+        initialised = []
         for x in self.data:
             x0 = r.random()
+            if prof == "symbolic" and initialised and x0 > 0.7:
+                # chained initial assignment: the parameter reaches this variable only through another variable's initial value
+                y = r.choice(initialised)
+                e = r.choice([binop("**", var(y), num(2)), add(mul(num(2), var(y)), num(1)), mul(var(y), var(y))])
+                self.init.append(("assign", x, ("poly", e)))
+                self.feat("chained-initial-assignment")
+                initialised.append(x)
+                continue
+            initialised.append(x)
             if x0 < 0.1:
                 self.noinit.add(x)
+                initialised.pop()
                 self.feat("no-initial-value")
-            elif x0 < 0.2 and prof == "symbolic":
+            elif x0 < 0.35 and prof == "symbolic":
                 self.params["x0init"] = "real"
                 self.init.append(("assign", x, ("poly", var("x0init"))))
                 self.feat("symbolic-initial-value")
@@ -485,6 +525,13 @@ class Gen:
                         terms.append(num(r.choice([1, 2, -1])))
                     rhss.append(("poly", sum_terms(terms)))
                 if len(lvl) >= 2 and r.random() < 0.7:
+                    if r.random() < 0.3:
+                        # a draw / choice as one component, read by a component further to the right
+                        j = r.randrange(len(lvl) - 1)
+                        rhss[j] = r.choice([("draw", "Bernoulli", [num(F(1, 2))]), ("draw", "DiscreteUniform", [num(0), num(2)]),
+                                            ("choice", [(num(1), num(F(1, 4))), (num(3), num(F(3, 4)))])])
+                        rhss[j + 1] = ("poly", add(var(lvl[j]), var(lvl[j + 1])))
+                        self.feat("simultaneous-assignment-with-draw")
                     data_stmts.append(("simult", list(lvl), rhss))
                     self.feat("simultaneous-assignment")
                 else:
@@ -519,12 +566,53 @@ class Gen:
         body += self.wrap_in_conditions(data_stmts, fin_stmts[cut:])
         if prof == "multiassign" or r.random() < 0.2:
             body = self.add_multi_assign(body)
+        if self.data and r.random() < 0.15:
+            # a chain of loop constants (never assigned in the body), each defined from the previous one
+            depth = r.choice([2, 3, 3, 4])
+            names = ["ka", "kb", "kc", "kd"][:depth]
+            self.init.append(("assign", names[0], ("poly", num(r.choice([3, 2, F(1, 2)])))))
+            for a_, b_ in zip(names, names[1:]):
+                self.init.append(("assign", b_, ("poly", r.choice([mul(num(2), var(a_)), add(var(a_), num(-1)), add(mul(num(3), var(a_)), num(1))]))))
+            x = r.choice(self.data)
+            body.append(("assign", x, ("poly", add(var(x), var(names[-1])))))
+            self.feat(f"constant-chain-depth-{depth}")
+        if self.large_discrete:
+            # lagged copy placed BEFORE the draw: the copy reads the previous iteration's value of an untypable variable
+            u = self.large_discrete[0]
+            lag = "k"
+            self.init.append(("assign", lag, ("poly", num(0))))
+            if u not in [st[1] for st in self.init if st[0] == "assign"]:
+                self.init.append(("assign", u, ("poly", num(0))))
+            body = [("assign", lag, ("poly", var(u)))] + body
+            x = r.choice(self.data)
+            body.append(("assign", x, ("poly", add(var(x), binop("**", var(lag), num(2))))))
+            self.data = self.data + [lag]
+            self.feat("lagged-read-of-untypable-draw")
+        if self.fin and prof in ("guarded", "nested", "discrete") and r.random() < 0.2:
+            # a variable WITHOUT initial value that is assigned a constant inside a branch
+            c = r.choice(list(self.fin))
+            val = r.choice(sorted(self.fin[c]))
+            body.append(("if", [(("atom", var(c), "==", num(val)), [("assign", "m", ("poly", num(r.choice([3, 2, 5]))))])], None))
+            x = r.choice(self.data)
+            body.append(("assign", x, ("poly", add(var(x), var("m")))))
+            self.noinit.add("m")
+            self.data = self.data + ["m"]
+            self.feat("uninitialised-constant-assigned-in-branch")
         if self.fin and self.data and prof in ("discrete", "nested", "guarded", "multiassign", "mixed") and r.random() < 0.3:
             body = self.add_alias_reuse(body)
         if self.data and prof in ("discrete", "nested", "guarded", "multiassign", "mixed") and r.random() < 0.25:
             body = self.add_latch(body)
         guard = ("true",)
-        if prof == "guarded" or (self.fin and r.random() < 0.15):
+        if prof == "guarded" and r.random() < 0.15:
+            # guard over a variable that is drawn in the init block and never assigned in the body: the loop is either
+            # skipped or never stops; the moments given termination condition on the initial draw
+            q = r.choice(PROBS[:9])
+            self.init.append(("assign", "g", ("draw", "Bernoulli", [num(q)])))
+            self.fin["g"] = {F(0), F(1)}
+            guard = ("atom", var("g"), "==", num(r.choice([0, 1])))
+            self.feat("guard")
+            self.feat("guard-over-initial-draw-only")
+        elif prof == "guarded" or (self.fin and r.random() < 0.15):
             guard = self.make_guard()
         prog = Program(self.typedefs, self.init, guard, body)
         return prog
@@ -674,7 +762,12 @@ class Gen:
         v = r.choice(names)
         vals = sorted(self.fin[v])
         x = r.random()
-        if x < 0.5:
+        if x < 0.12 and all(q.denominator == 1 for q in vals):
+            # overlapping alternatives over the same variable: v <= a || v == a
+            a = r.choice(vals)
+            g = ("or", ("atom", var(v), r.choice(["<=", ">="]), num(a)), ("atom", var(v), "==", num(a)))
+            self.feat("guard-overlapping-disjunction")
+        elif x < 0.5:
             val = r.choice(vals)
             g = ("atom", var(v), "==", num(val))
         elif x < 0.8 and all(q.denominator == 1 for q in vals):
